@@ -183,6 +183,7 @@ def a_sequence_worlds(rng: random.Random, n: int) -> T.List[dict]:
             'provide': provide, 'sub_overrides': sub_overrides,
             'sub_download': sub and pre == 'none' and rng.random() < 0.25,
             'sub': sub, 'pre': pre, 'pver': rng.choice(['lo', 'hi']), 'optstyle': rng.choice(['D', 'long']),
+            'sub_var_missing': sub and rng.random() < 0.15,
             'seq': seq,
         })
     return out
@@ -374,14 +375,17 @@ def a_world_files(world: dict, root: str = '') -> T.Tuple[T.Dict[str, T.Union[st
     top.append("message('END')")
     files['src/meson.build'] = '\n'.join(top) + '\n'
     if world['sub']:
+        # sub_var_missing: the link (fallback: [sub, var] / `name = var` in [provide]) names a variable the subproject
+        # does not define (renamed upstream, or kept after the subproject switched to meson.override_dependency())
+        var = 'renamed_' + VAR if world.get('sub_var_missing') else VAR
         if pre == 'override_sub':
             v = OVR_VERSIONS[world['pver']]
-            body = f"{VAR} = declare_dependency(version: '{v}')\nmeson.override_dependency('{DEP}', {VAR})\n"
+            body = f"{var} = declare_dependency(version: '{v}')\nmeson.override_dependency('{DEP}', {var})\n"
         else:
             v = SUB_VERSIONS[world['pver']]
-            body = f"{VAR} = declare_dependency(version: '{v}')\n"
+            body = f"{var} = declare_dependency(version: '{v}')\n"
             if world.get('sub_overrides'):
-                body += f"meson.override_dependency('{DEP}', {VAR})\n"
+                body += f"meson.override_dependency('{DEP}', {var})\n"
         subfiles: T.Dict[str, bytes] = {}
         if world.get('side_overrides'):
             body += (f"meson.override_dependency('{SIDE_DEP}', declare_dependency(version: '3.3'))\n"
@@ -406,7 +410,7 @@ def a_world_files(world: dict, root: str = '') -> T.Tuple[T.Dict[str, T.Union[st
             wrap += (f'source_url = file://{root}/srv/{SUB}.tar\nsource_filename = {SUB}.tar\n'
                      f'source_hash = {sha256(blob)}\n')
         if world['provide']:
-            prov = f'dependency_names = {DEP}' if world.get('sub_overrides') else f'{DEP} = {VAR}'
+            prov = f'dependency_names = {DEP}' if wrap_form(world) == 'names' else f'{DEP} = {VAR}'
             wrap += f'\n[provide]\n{prov}\n'
         files[f'src/subprojects/{SUB}.wrap'] = wrap
     args: T.List[str] = []
@@ -423,6 +427,38 @@ def a_world_files(world: dict, root: str = '') -> T.Tuple[T.Dict[str, T.Union[st
     if world.get('pcpath') is not None:
         args.append(pcpath_arg(world['pcpath'], root))
     return files, args, {}
+
+
+def wrap_form(world: dict) -> str:
+    """[provide] `dependency_names = foo` (the subproject overrides the name) or `foo = foo_dep` (variable)."""
+    return world.get('wrap_form') or ('names' if world.get('sub_overrides') else 'var')
+
+
+def a_missing_variable_worlds(rng: random.Random, full: bool = False) -> T.List[dict]:
+    """The link names a variable the configured subproject does not define: nothing suitable comes from it (optional
+    -> not-found, required -> error) unless the subproject has overridden the name, in which case the override wins."""
+    out = []
+    for link in ('explicit', 'provide'):
+        for sub_overrides in (False, True):
+            for pre in ('none', 'failed_sub'):       # 'failed_sub' without sub_fails: subproject('sub', required: false) first
+                for req in (False, True):
+                    for system in ((None, '1.0', '2.0') if full else (None, rng.choice(['1.0', '2.0']))):
+                        for missing in ((True, False) if full else (True,)):
+                            con = rng.choice([None, None, '>=2', '<2'])
+                            lk = {'constraint': con, 'required': req,
+                                  'allow_fallback': None if link == 'explicit' else rng.choice([None, True]),
+                                  'explicit': link == 'explicit', 'eform': 'pair', 'afform': 'kw',
+                                  'static': None, 'nfm': rng.random() < 0.3}
+                            seq = [lk, dict(lk)]
+                            if rng.random() < 0.4:
+                                seq.append(dict(lk, required=False, constraint=None))
+                            out.append({'system': system, 'wrap_mode': rng.choice(['default', 'default', 'nodownload', 'forcefallback']),
+                                        'fff': rng.choice(['none', 'none', 'sub']),
+                                        'main_dl': 'shared', 'sub_dl_how': 'same', 'sub_dl_value': None,
+                                        'provide': link == 'provide', 'wrap_form': 'var', 'sub_overrides': sub_overrides,
+                                        'sub_var_missing': missing, 'sub_download': False, 'sub': True, 'pre': pre,
+                                        'pver': rng.choice(['lo', 'hi']), 'optstyle': rng.choice(['D', 'long']), 'seq': seq})
+    return out
 
 
 PCDIRS = {'A': '1.0', 'B': '2.0'}
